@@ -314,3 +314,43 @@ func randomPlan(total int, rng *rand.Rand) []int {
 	}
 	return plan
 }
+
+// errWriteInjected is what the pass-through writer returns once it "fills up".
+var errWriteInjected = errors.New("verif: injected writer failure")
+
+// failWriter accepts failAt writes and fails every one after that.
+type failWriter struct {
+	n, failAt int
+	failed    bool
+}
+
+func (w *failWriter) Write(p []byte) (int, error) {
+	if w.n >= w.failAt {
+		w.failed = true
+		return 0, errWriteInjected
+	}
+	w.n++
+	return len(p), nil
+}
+
+// runStreamFailingWriter runs the resume loop with a pass-through writer that fails from its
+// failAt-th write on. It returns the error of the call during which the writer first failed
+// (reached = false if the writer never got that far).
+func runStreamFailingWriter(src *source, opts *stack.Opts, maxCalls, failAt int) (reached bool, err error, pan string) {
+	w := &failWriter{failAt: failAt}
+	var in io.Reader = src
+	for i := 0; i < maxCalls; i++ {
+		_, suffix, e, p := scanOnce(in, w, opts)
+		if p != "" {
+			return w.failed, e, p
+		}
+		if w.failed {
+			return true, e, ""
+		}
+		if c := classify(e); c == "eof" || c == "reader" {
+			return false, e, ""
+		}
+		in = io.MultiReader(bytes.NewReader(suffix), in)
+	}
+	return false, nil, ""
+}
